@@ -201,7 +201,9 @@ Record worker := {
   w_term : option N          (* termination time *)
 }.
 
-Record rclass := { rc_entries : request; rc_min_time : N }.
+(** [rc_entries]: the entries with an amount (Compact ...); [rc_all]: the resources requested with the
+    [All] policy (the whole resource of the worker the task runs on) *)
+Record rclass := { rc_entries : request; rc_min_time : N; rc_all : list N }.
 
 Record inst := {
   i_nres : N;
@@ -212,19 +214,53 @@ Record inst := {
 }.
 
 Definition class_of (I : inst) (rq : N) : rclass :=
-  nth (N.to_nat rq) (i_classes I) {| rc_entries := []; rc_min_time := 0 |}.
+  nth (N.to_nat rq) (i_classes I) {| rc_entries := []; rc_min_time := 0; rc_all := [] |}.
 Definition req_of (I : inst) (rq : N) : request := rc_entries (class_of I rq).
+
+(** [min_amount] of every entry: an [All] entry asks for at least one fraction *)
+Definition min_req (I : inst) (rq : N) : request :=
+  req_of I rq ++ map (fun r => (r, 1)) (rc_all (class_of I rq)).
+
+(** What a class demands ON a given worker: an [All] entry is the worker's TOTAL of that resource
+    ([amount_or_none_if_all().unwrap_or_else(|| worker.resources.get(r))]).  [inst_on I w] is [I] with
+    every class resolved for worker [w]; [req_of (inst_on I w) rq] is the demand of class [rq] on [w]. *)
+Definition class_on (total : rvec) (c : rclass) : rclass :=
+  {| rc_entries := rc_entries c ++ map (fun r => (r, rv_get total r)) (rc_all c);
+     rc_min_time := rc_min_time c; rc_all := [] |}.
+Definition inst_on (I : inst) (w : worker) : inst :=
+  {| i_nres := i_nres I; i_now := i_now I; i_workers := i_workers I;
+     i_classes := map (class_on (w_res w)) (i_classes I); i_queues := i_queues I |}.
+
+(** [task_max_count_for_request]: an [All] entry allows one task if the resource is there at all *)
+Definition task_max_count_cls (v : rvec) (c : rclass) : N :=
+  match list_min (map (fun e => N.min (rv_get v (fst e) / snd e) SCHED_MAX_TASK_PER_WORKER) (rc_entries c)
+                  ++ map (fun r => if rv_get v r =? 0 then 0 else 1) (rc_all c)) with
+  | Some m => m
+  | None => 0
+  end.
+
+(** [remove] / [remove_multiple]: an [All] entry zeroes the resource *)
+Fixpoint rv_zero (v : rvec) (rs : list N) : res rvec :=
+  match rs with
+  | [] => Ok v
+  | r :: t => if Nat.ltb (N.to_nat r) (length v) then rv_zero (rv_set v (N.to_nat r) 0) t else Panic 1501
+  end.
+Definition rv_remove_cls (v : rvec) (c : rclass) (n : N) : res rvec :=
+  match rc_all c with
+  | [] => rv_remove_multiple v (rc_entries c) n
+  | rs => do v' <- rv_remove_multiple v (rc_entries c) n; rv_zero v' rs
+  end.
 
 (** [has_time_to_run] *)
 Definition has_time (I : inst) (w : worker) (c : rclass) : bool :=
   match w_term w with None => true | Some t => i_now I + rc_min_time c <=? t end.
 (** [is_capable_to_run] (single node) *)
 Definition capable (I : inst) (w : worker) (rq : N) : bool :=
-  has_time I w (class_of I rq) && capable_res (w_res w) (req_of I rq).
+  has_time I w (class_of I rq) && capable_res (w_res w) (min_req I rq).
 Definition blocked (w : worker) (rq : N) : bool := existsb (N.eqb rq) (w_blocked w).
 (** the filter under which a placement variable is created *)
 Definition placeable (I : inst) (w : worker) (rq : N) : bool :=
-  negb (blocked w rq) && has_time I w (class_of I rq) && capable_res (w_free w) (req_of I rq).
+  negb (blocked w rq) && has_time I w (class_of I rq) && capable_res (w_free w) (min_req I rq).
 
 (** * Batches (scheduler/batches.rs) *)
 
@@ -234,7 +270,7 @@ Record batch := { b_rq : N; b_cuts : list cut; b_size : N; b_limit : N; b_lr : b
 Definition batch_limit (I : inst) (rq : N) : N :=
   fold_right (fun w acc =>
     (if capable I w rq then
-       let runnable := task_max_count (w_free w) (req_of I rq) in
+       let runnable := task_max_count_cls (w_free w) (class_of I rq) in
        if 0 <? runnable then runnable else 1
      else 0) + acc) 0 (i_workers I).
 
@@ -382,19 +418,21 @@ Fixpoint remove_assigned (I : inst) (free : rvec) (assigned : list N) (h : N) : 
   | [] => Ok free
   | rq :: t =>
       if rq =? h then remove_assigned I free t h
-      else do f <- rv_remove_multiple free (req_of I rq) 1; remove_assigned I f t h
+      else do f <- rv_remove_cls free (class_of I rq) 1; remove_assigned I f t h
   end.
 
 Definition gap_resources (I : inst) (w : worker) (h : N) : res rvec :=
-  let hr := req_of I h in
-  let count := task_max_count (w_res w) hr in
-  do free <- rv_remove_multiple (w_res w) hr count;
+  let hc := class_of I h in
+  let count := task_max_count_cls (w_res w) hc in
+  do free <- rv_remove_cls (w_res w) hc count;
   remove_assigned I free (w_assigned w) h.
 
-(** [GapCache::get_gap(h, l, w.resources, w.assigned_tasks)] *)
+(** [GapCache::get_gap(h, l, w.resources, w.assigned_tasks)]; a blocker with an [All] entry has no gap *)
 Definition gap (I : inst) (w : worker) (h l : N) : res N :=
-  do free <- gap_resources I w h;
-  Ok (task_max_count free (req_of I l)).
+  match rc_all (class_of I h) with
+  | [] => do free <- gap_resources I w h; Ok (task_max_count_cls free (class_of I l))
+  | _ => Ok 0
+  end.
 
 (** * The row system (scheduler/solver.rs) *)
 
@@ -479,14 +517,14 @@ Definition z (n : N) : Z := Z.of_N n.
 Definition worker_entries (I : inst) (bs : list batch) (w_idx : N) (w : worker) : list entry :=
   let vars := concat (map (fun b =>
       match placement_kind I w b with
-      | PX => [EVar (VX (w_id w) (b_rq b)) KNat (z (x_weight I w_idx (b_rq b)))]
+      | PX => [EVar (VX (w_id w) (b_rq b)) KNat (z (x_weight (inst_on I w) w_idx (b_rq b)))]
       | PR => [EVar (VR (w_id w) (b_rq b)) KBool (z (r_weight I w_idx))]
       | PNone => []
       end) bs) in
   let res_terms (r : N) : list (var * Z) :=
     concat (map (fun b =>
       match placement_kind I w b with
-      | PX => concat (map (fun e => if fst e =? r then [(VX (w_id w) (b_rq b), z (snd e))] else []) (req_of I (b_rq b)))
+      | PX => concat (map (fun e => if fst e =? r then [(VX (w_id w) (b_rq b), z (snd e))] else []) (req_of (inst_on I w) (b_rq b)))
       | PR => if 0 <? rv_get (w_free w) r then [(VR (w_id w) (b_rq b), z (rv_get (w_free w) r))] else []
       | PNone => []
       end) bs) in
@@ -696,7 +734,7 @@ Fixpoint sub_all (I : inst) (v : rvec) (rqs : list N) : option rvec :=
   end.
 
 Definition free_after (I : inst) (d : dispatch) (w : worker) : option rvec :=
-  sub_all I (w_free w)
+  sub_all (inst_on I w) (w_free w)
     (concat (map (fun p => if snd p =? w_id w then
                              match find_task (ready_tasks I) (fst p) with Some t => [t_rq t] | None => [] end
                            else []) d)).
@@ -715,15 +753,15 @@ Definition fits_without_lower (I : inst) (d : dispatch) (w : worker) (u : dtask)
         | None => []
         end
       else []) d) in
-  match sub_all I (w_free w) keep with
-  | Some v => capable_res v (req_of I (t_rq u))
+  match sub_all (inst_on I w) (w_free w) keep with
+  | Some v => capable_res v (req_of (inst_on I w) (t_rq u))
   | None => false
   end.
 
 (** the exception of the statement: another worker could run [u] but is currently too busy to start it *)
 Definition waits_for_busy (I : inst) (w : worker) (u : dtask) : bool :=
   existsb (fun w' => negb (w_id w' =? w_id w) && capable I w' (t_rq u) && negb (blocked w' (t_rq u))
-                     && negb (capable_res (w_free w') (req_of I (t_rq u)))) (i_workers I).
+                     && negb (capable_res (w_free w') (req_of (inst_on I w') (t_rq u)))) (i_workers I).
 
 Definition find_worker (I : inst) (id : N) : option worker := find (fun w => w_id w =? id) (i_workers I).
 
@@ -735,7 +773,7 @@ Definition inversions (I : inst) (d : dispatch) : list (dtask * worker * dtask) 
     | Some t, Some w =>
         concat (map (fun u =>
           if negb (dispatched d (t_id u)) && (t_prio t <? t_prio u)
-             && negb (blocked w (t_rq u)) && has_time I w (class_of I (t_rq u))
+             && negb (blocked w (t_rq u)) && capable I w (t_rq u)
              && fits_without_lower I d w u && negb (waits_for_busy I w u)
           then [(t, w, u)] else []) ready)
     | _, _ => []
@@ -796,7 +834,7 @@ Definition k2_violated (I : inst) (bs : list batch) (s : sol) (w : worker) (h : 
       let used := fold_right (fun b acc =>
           if b_rq b =? h then acc
           else match open_cut I bs s (b_rq b) h with
-               | Some c => rv_add_scaled acc (req_of I (b_rq b)) (placed I bs s w (b_rq b) - c)
+               | Some c => rv_add_scaled acc (req_of (inst_on I w) (b_rq b)) (placed I bs s w (b_rq b) - c)
                | None => acc
                end) (map (fun _ => 0) g) bs in
       negb (rv_le used g)
@@ -870,12 +908,12 @@ Definition kept_on (I : inst) (d : dispatch) (w : worker) (u : dtask) : list dta
 
 (** [gap] recomputed next to the kept tasks *)
 Definition gap_next_to (I : inst) (w : worker) (kept : list N) (h l : N) : N :=
-  match sub_all I (w_res w) kept with
+  match sub_all (inst_on I w) (w_res w) kept with
   | Some base =>
-      let hr := req_of I h in
+      let hr := req_of (inst_on I w) h in
       match rv_remove_multiple base hr (task_max_count base hr) with
       | Ok f1 => match remove_assigned I f1 (w_assigned w) h with
-                 | Ok f2 => task_max_count f2 (req_of I l)
+                 | Ok f2 => task_max_count f2 (req_of (inst_on I w) l)
                  | _ => 0
                  end
       | _ => 0
@@ -887,12 +925,12 @@ Definition k4_event (I : inst) (d : dispatch) (w : worker) (u : dtask) : bool :=
   let h := t_rq u in
   let kept := map t_rq (kept_on I d w u) in
   let lows := map t_rq (lows_on I d w u) in
-  match sub_all I (w_free w) kept with
+  match sub_all (inst_on I w) (w_free w) kept with
   | Some base =>
-      let hr := req_of I h in
+      let hr := req_of (inst_on I w) h in
       match rv_remove_multiple base hr (task_max_count base hr) with
       | Ok room =>
-          (match sub_all I room lows with Some _ => false | None => true end)
+          (match sub_all (inst_on I w) room lows with Some _ => false | None => true end)
           && existsb (fun l => gap_next_to I w kept h l <? gap_or0 I w h l) lows
       | _ => false
       end
@@ -903,12 +941,12 @@ Definition k4_event (I : inst) (d : dispatch) (w : worker) (u : dtask) : bool :=
     on the workers where h may run into at most [cut] tasks "before the cut" and a rest that fits into
     the gap left NEXT TO those tasks *)
 Definition gap_with_highs (I : inst) (w : worker) (h l zh : N) : N :=
-  match rv_remove_multiple (w_res w) (req_of I l) zh with
+  match rv_remove_multiple (w_res w) (req_of (inst_on I w) l) zh with
   | Ok base =>
-      let hr := req_of I h in
+      let hr := req_of (inst_on I w) h in
       match rv_remove_multiple base hr (task_max_count base hr) with
       | Ok f1 => match remove_assigned I f1 (w_assigned w) h with
-                 | Ok f2 => task_max_count f2 (req_of I l)
+                 | Ok f2 => task_max_count f2 (req_of (inst_on I w) l)
                  | _ => 0
                  end
       | _ => 0
@@ -938,7 +976,7 @@ Definition k4_violated (I : inst) (bs : list batch) (s : sol) (l cut h : N) : bo
     by that blocker. *)
 Definition k5_event (I : inst) (d : dispatch) (w : worker) (u : dtask) : bool :=
   match free_after I d w with
-  | Some v => capable_res v (req_of I (t_rq u))
+  | Some v => capable_res v (req_of (inst_on I w) (t_rq u))
   | None => false
   end.
 
@@ -976,8 +1014,12 @@ Definition classify (I : inst) (bs : list batch) (s : sol) (d : dispatch) (x : d
     [!worker.is_request_blocked(rq, variant) && worker.has_time_to_run(variant.min_time(), now)
      && worker.have_immediate_resources_for_rq(variant)], and against overbooking of the worker. *)
 
-Record variant := { v_entries : request; v_min_time : N }.
-Record vworker := { vw_id : N; vw_free : rvec; vw_term : option N; vw_blocked : list (N * N) }.
+Record variant := { v_entries : request; v_min_time : N; v_all : list N }.
+Record vworker := { vw_id : N; vw_res : rvec; vw_free : rvec; vw_term : option N; vw_blocked : list (N * N) }.
+
+(** demand of a variant on a worker: an [All] entry is the worker's total of that resource *)
+Definition v_demand (w : vworker) (v : variant) : request :=
+  v_entries v ++ map (fun r => (r, rv_get (vw_res w) r)) (v_all v).
 
 Definition variant_of (classes : list (list variant)) (rq vi : N) : option variant :=
   nth_error (nth (N.to_nat rq) classes []) (N.to_nat vi).
@@ -994,17 +1036,19 @@ Definition vplace_errors (now : N) (classes : list (list variant)) (w : vworker)
           | Some t => if now + v_min_time v <=? t then [] else [VNoTime]
           | None => []
           end)
-      ++ (if capable_res (vw_free w) (v_entries v) then [] else [VNoResources])
+      (* the demand fits the free resources; an [All] resource must exist and be entirely free *)
+      ++ (if capable_res (vw_free w) (v_demand w v) && forallb (fun r => 0 <? rv_get (vw_res w) r) (v_all v)
+          then [] else [VNoResources])
   end.
 
 (** free resources after the placements [(rq, variant)] on one worker; [None] = overbooked *)
-Fixpoint vfree_after (classes : list (list variant)) (free : rvec) (ps : list (N * N)) : option rvec :=
+Fixpoint vfree_after (classes : list (list variant)) (w : vworker) (free : rvec) (ps : list (N * N)) : option rvec :=
   match ps with
   | [] => Some free
   | (rq, vi) :: t =>
       match variant_of classes rq vi with
-      | Some v => match rv_sub_checked free (v_entries v) with
-                  | Some f => vfree_after classes f t
+      | Some v => match rv_sub_checked free (v_demand w v) with
+                  | Some f => vfree_after classes w f t
                   | None => None
                   end
       | None => None
@@ -1013,4 +1057,4 @@ Fixpoint vfree_after (classes : list (list variant)) (free : rvec) (ps : list (N
 
 Definition vdecision_ok (now : N) (classes : list (list variant)) (w : vworker) (ps : list (N * N)) : bool :=
   forallb (fun p => match vplace_errors now classes w (fst p) (snd p) with [] => true | _ => false end) ps
-  && match vfree_after classes (vw_free w) ps with Some _ => true | None => false end.
+  && match vfree_after classes w (vw_free w) ps with Some _ => true | None => false end.
